@@ -597,9 +597,12 @@ pub fn get_value(
         Some(Function::Substring) => {
             let string = String::from(&function_arg);
 
-            let mut pos: i32 = match &function_args.is_empty() {
-                true => 0,
-                false => *&function_args[0].parse::<i32>().unwrap() - 1,
+            let mut pos: i32 = match function_args.first() {
+                None => 0,
+                Some(pos) => match pos.parse::<i32>() {
+                    Ok(pos) => pos - 1,
+                    _ => return Variant::empty(VariantType::String),
+                },
             };
 
             if pos < 0 {
@@ -608,7 +611,10 @@ pub fn get_value(
             }
 
             let len = match &function_args.get(1) {
-                Some(len) => len.parse::<usize>().unwrap(),
+                Some(len) => match len.parse::<usize>() {
+                    Ok(len) => len,
+                    _ => return Variant::empty(VariantType::String),
+                },
                 _ => 0,
             };
 
@@ -621,8 +627,10 @@ pub fn get_value(
         }
         Some(Function::Replace) => {
             let source = function_arg;
-            let from = &function_args[0];
-            let to = &function_args[1];
+            let (from, to) = match (function_args.first(), function_args.get(1)) {
+                (Some(from), Some(to)) => (from, to),
+                _ => return Variant::empty(VariantType::String),
+            };
 
             let result = source.replace(from, to);
 
@@ -659,7 +667,10 @@ pub fn get_value(
             match function_arg.parse::<f64>() {
                 Ok(val) => {
                     let power = match function_args.first() {
-                        Some(power) => power.parse::<f64>().unwrap(),
+                        Some(power) => match power.parse::<f64>() {
+                            Ok(power) => power,
+                            _ => return Variant::empty(VariantType::String),
+                        },
                         _ => 0.0,
                     };
 
@@ -676,7 +687,10 @@ pub fn get_value(
             match function_arg.parse::<f64>() {
                 Ok(val) => {
                     let base = match function_args.first() {
-                        Some(base) => base.parse::<f64>().unwrap(),
+                        Some(base) => match base.parse::<f64>() {
+                            Ok(base) => base,
+                            _ => return Variant::empty(VariantType::String),
+                        },
                         _ => 10.0,
                     };
 
@@ -763,9 +777,13 @@ pub fn get_value(
                 return Variant::empty(VariantType::String);
             }
 
-            let seconds = function_arg.parse::<u64>().unwrap();
-            let formatted = Duration::from_secs(seconds).to_human_time_string();
-            Variant::from_string(&formatted)
+            match function_arg.parse::<u64>() {
+                Ok(seconds) => {
+                    let formatted = Duration::from_secs(seconds).to_human_time_string();
+                    Variant::from_string(&formatted)
+                }
+                _ => Variant::empty(VariantType::String),
+            }
         }
 
         // ===== Datetime functions =====
